@@ -242,6 +242,9 @@ func TestReplay(t *testing.T) {
 		}
 	}
 	if os.Getenv("VERIF_DUMP") != "" {
+		for _, l := range sortedKeys(x.Labels) {
+			fmt.Printf("  LABEL %s x%d\n", l, x.Labels[l])
+		}
 		for _, l := range normalizedRun(x) {
 			if !strings.HasPrefix(l, "result ") && !strings.HasPrefix(l, "balances ") {
 				fmt.Println("  DUMP", l)
